@@ -61,6 +61,11 @@ def build(case):
     real = kind in models.REAL
     dt = DT[case.get('dtype', 'f64' if real else 'c128')]
     s.data = models.make_data(rng, kind, lead, K, N, D, cls=case.get('cls', 'gauss'), dtype=dt, E=case.get('E'), spread=case.get('spread', 3.0), offset=case.get('offset', 0.0))
+    if case.get('level') and case['level'] != 1.0:
+        # overall level of the real-valued data (Gaussian models are equivariant to it; absolute regularisers are not)
+        key = 'e' if 'e' in s.data else 'y'
+        if kind in models.REAL or 'e' in s.data:
+            s.data[key] = (s.data[key] * case['level']).astype(s.data[key].dtype)
     if case.get('e_dtype') == 'f32' and 'e' in s.data:
         s.data['e'] = s.data['e'].astype(np.float32)       # mixed precision: double-precision STFT with single-precision network embeddings
     relayout(s.data, case.get('layout', 'c'))
